@@ -3,7 +3,7 @@ From GmVerif Require Import Base.Bytes Hash.MD Hash.Instances Cipher.SM4 Cipher.
   Cipher.AES Cipher.Aead.
 Extraction Language OCaml.
 Extraction "../ocaml/gen/ModelC05.ml"
-  Z.of_N N.of_nat
+  Z.of_N N.of_nat aes_encrypt_block16
   sm4_encrypt_block sm4_decrypt_block aes_encrypt_block
   gcm_encrypt gcm_decrypt gcm_encrypt_stream gcm_decrypt_stream
   ccm_encrypt ccm_decrypt
